@@ -101,6 +101,8 @@ fn cmd_drive(m: &BTreeMap<String, String>) {
         sweep: get(m, "sweep", 16),
         marathon: get(m, "marathon", 0),
         flood: get(m, "flood", 0),
+        warp: get(m, "warp", 0),
+        warp_lib: m.get("warp-lib").map(PathBuf::from),
         dump_sessions: get(m, "dump-sessions", 0),
         out: out.clone(),
     };
